@@ -125,6 +125,8 @@ type Peer struct {
 	DataSentMaybe atomic.Int64
 	Selected      atomic.Bool      // Select.rsp(0) was written
 	CtrlSeen      [10]atomic.Int64 // control frames read, by SType
+	S9F1Seen      atomic.Int64     // S9F1 data frames read (the answer to a foreign-session data frame)
+	S9F9Seen      atomic.Int64     // S9F9 data frames read (the notice after a T3 with autoS9F9)
 	EOF           chan struct{}
 	closed        chan struct{}
 	tmu           sync.Mutex // orders the T event against W events of this peer
@@ -191,7 +193,8 @@ type Env struct {
 	cycleFresh atomic.Bool
 	closing    atomic.Bool // set around Close: a dial that starts then is refused and counted by nobody
 	// handler events
-	HandlerCalls atomic.Int64
+	HandlerCalls   atomic.Int64
+	DecodeErrCalls atomic.Int64 // decode-error handler invocations (HandlerMode 2)
 	// InlineReply makes the data handler answer every primary with ReplyDataMessage on the calling
 	// (receive) goroutine; the records are read with Inline().
 	InlineReply atomic.Bool
@@ -224,9 +227,14 @@ type Options struct {
 	CloseTimeout       time.Duration
 	Backoff            time.Duration
 	QueueSize          int
-	Secs1              bool          // SECS-I transport (equipment role) instead of HSMS-SS
-	T2                 time.Duration // SECS-I line timers
-	Retry              int
+	// options that change which frames are counted / dropped / answered (HSMS-SS passes only)
+	ValidateSessionID bool          // hsms.WithSessionIDValidation: foreign-session data is counted, dropped, answered S9F1
+	AutoS9F9          bool          // hsms.WithAutoS9F9: an S9F9 data frame follows every T3
+	HandlerMode       int           // 0 data handler; 1 NO data handler registered; 2 data handler + decode-error handler
+	TraceTraffic      bool          // hsms.WithTraceTraffic
+	Secs1             bool          // SECS-I transport (equipment role) instead of HSMS-SS
+	T2                time.Duration // SECS-I line timers
+	Retry             int
 }
 
 // DefaultOptions are quiet, fast timers: every protocol timer far above a normal round trip.
@@ -285,6 +293,9 @@ func NewEnv(o Options) (*Env, error) {
 		hsms.WithLinktestSuppression(false),
 		hsms.WithAsyncSendErrorHandler(func(msg hsms.Message, err error) { e.asyncErr(msg, err) }),
 	}
+	if !o.Secs1 {
+		copts = append(copts, hsms.WithSessionIDValidation(o.ValidateSessionID), hsms.WithAutoS9F9(o.AutoS9F9), hsms.WithTraceTraffic(o.TraceTraffic))
+	}
 	if o.LinktestThreshold > 0 {
 		copts = append(copts, hsms.WithLinktestFailThreshold(o.LinktestThreshold))
 	}
@@ -337,6 +348,16 @@ func NewEnv(o Options) (*Env, error) {
 	}) {
 		return nil, errors.New("genx: cannot install the start gate")
 	}
+	if o.HandlerMode == 2 {
+		conn.AddDecodeErrorHandler(func(msg *hsms.DataMessage, err error, ep hsms.SECS2Endpoint) { e.DecodeErrCalls.Add(1) })
+	}
+	if o.HandlerMode != 1 {
+		e.addDataHandler(conn)
+	}
+	return e, nil
+}
+
+func (e *Env) addDataHandler(conn hsms.Connection) {
 	conn.AddDataMessageHandler(func(msg *hsms.DataMessage, ep hsms.SECS2Endpoint) {
 		e.HandlerCalls.Add(1)
 		if e.InlineReply.Load() {
@@ -351,7 +372,6 @@ func NewEnv(o Options) (*Env, error) {
 			e.mu.Unlock()
 		}
 	})
-	return e, nil
 }
 
 func (e *Env) record(ev Event) {
@@ -642,6 +662,32 @@ func (p *Peer) Primary(n uint32) error {
 	return p.SendData(frame(p.env.SessionID, 1, 13, 0, 0, sys, body(n, uint32(p.Gen)).ToBytes()))
 }
 
+// PrimaryForeign sends an unsolicited primary carrying a Session ID that is not the connection's:
+// a well-formed data frame (counted as received); with session-ID validation on it is dropped
+// and answered with S9F1, otherwise it is delivered like any other primary.
+func (p *Peer) PrimaryForeign(n uint32) error {
+	var sys [4]byte
+	binary.BigEndian.PutUint32(sys[:], 0x80000000|n)
+	return p.SendData(frame(p.env.SessionID+1, 1, 13, 0, 0, sys, body(n, uint32(p.Gen)).ToBytes()))
+}
+
+// PrimaryBadBody sends an unsolicited primary whose SECS-II body does not decode (a list header
+// announcing five items, then nothing): the frame itself is well-formed and counted as received.
+func (p *Peer) PrimaryBadBody(n uint32) error {
+	var sys [4]byte
+	binary.BigEndian.PutUint32(sys[:], 0x80000000|n)
+	return p.SendData(frame(p.env.SessionID, 1, 13, 0, 0, sys, []byte{0x01, 0x05}))
+}
+
+// ReplyForeign answers the W-bit primary f like Reply, but under a foreign Session ID.
+func (p *Peer) ReplyForeign(f []byte) error {
+	var sys [4]byte
+	copy(sys[:], f[10:14])
+	tok, _, _ := parseBody(f[14:])
+	b := body(tok, uint32(p.Gen)).ToBytes()
+	return p.SendData(frame(binary.BigEndian.Uint16(f[4:6])+1, f[6]&0x7F, f[7]+1, 0, 0, sys, b))
+}
+
 // PrimaryBig sends an unsolicited primary whose body (a binary item of size bytes) spans several
 // SECS-I blocks when size > 244.
 func (p *Peer) PrimaryBig(n uint32, size int) error {
@@ -718,6 +764,12 @@ func (p *Peer) onData(f []byte) {
 	// the wire event is recorded BEFORE the independent count moves: a snapshot taken once the
 	// counts agree then has every wire event in front of it
 	defer p.DataRecv.Add(1)
+	if f[6]&0x7F == 9 && f[7] == 1 {
+		p.S9F1Seen.Add(1)
+	}
+	if f[6]&0x7F == 9 && f[7] == 9 {
+		p.S9F9Seen.Add(1)
+	}
 	tok, _, ok := parseBody(f[14:])
 	var c *Call
 	if ok {
